@@ -24,6 +24,7 @@ func smallHandlerInline(fn *ssa.Function) bool {
 }
 
 func runC13(c *Ctx) {
+	defer checkConfigGetters(c, "C13.R7", "GetMinParameterEntropy", "GetAllowedPrompts")
 	c13R1(c)
 	c13Handlers(c)
 	c13R4(c)
